@@ -1,7 +1,7 @@
 """C01 — commits are atomic and durable across crashes (partial: ordering / fsync / who-may-write skeleton)."""
 from sa import names as N
 from sa.prog import Effect, Site, Slice, TERM, callee_of, must_order, ok_sites, op_local, outcome_arms, in_arm
-from sa.rules.common import publish_sites, callers_of, root_fn, is_test_or_bench, entry_ancestors
+from sa.rules.common import publish_sites, callers_of, root_fn, is_test_or_bench, entry_ancestors, direct_callers, tops_of
 
 EXPLANATION = ("Decides the structural skeleton that crash atomicity and durability rest on, for every path of the "
                "commit / compaction / storage code: order of log sync, segment fsync, atomic manifest replace, commit "
@@ -272,9 +272,12 @@ def r01e(ctx, P):
             continue
         sl = None
         for b, t in f.calls():
-            if t["callee"] in (N.S_WRITE_ALL, N.S_OPEN_WRITE, N.S_OPEN_APPEND):
+            if t["callee"] in (N.S_WRITE_ALL, N.S_OPEN_WRITE, N.S_OPEN_APPEND) or callee_of(t) in ("std::fs::write", "std::fs::File::create", "std::fs::OpenOptions::open") \
+                    or (P.fns.get(callee_of(t)) is not None and P.fns[callee_of(t)].impl_trait == N.STOR and callee_of(t).endswith(("::write_all", "::open_write", "::open_append"))):
                 sl = sl or Slice(f)
-                cs = sl.callees(t["args"][1])
+                cs = set()
+                for a in t["args"]:
+                    cs |= Slice(f, through_all_calls=True).callees(a)
                 if any(c.endswith("::manifest_path") for c in cs):
                     n += 1
                     ctx.ob(rid, "%s:%s:non-atomic-manifest-write" % (rid, f.short), False,
@@ -295,17 +298,26 @@ def r01f(ctx, P):
                   "only from compact (after its store) and from commit's error arm with segments written in this call; "
                   "StorageFile::set_len and Storage::open_append are used only inside index::wal")
     n = 0
-    for eff in (N.S_REMOVE, N.S_REMOVE_DIR):
-        tops = entry_ancestors(P, eff, stop=lambda p: p == N.CLEANUP or (P.fn(p) is not None and P.fn(p).vis == "Public" and P.fn(p).kind != "closure"),
-                               skip=lambda f: f.impl_trait == N.STOR or is_test_or_bench(f))
-        for c in sorted(tops):
-            f = P.fn(c)
-            n += 1
-            ctx.ob(rid, "%s:%s:%s" % (rid, eff.rsplit("::", 1)[1], c.split("::", 1)[1]), c == N.CLEANUP,
-                   "%s reached only through cleanup_segments" % eff if c == N.CLEANUP else
-                   "%s reachable from %s without passing through cleanup_segments" % (eff, c),
-                   "%s:%s" % (f.file, f.line) if f else None)
-    ctx.floor(rid + ".remove", n, 1, "Storage::remove call sites")
+    storage_impl = lambda f: f.impl_trait in (N.STOR, N.SFILE) or is_test_or_bench(f)  # noqa: E731
+
+    def is_removal(c):
+        if c in (N.S_REMOVE, N.S_REMOVE_DIR, "std::fs::remove_file", "std::fs::remove_dir_all", "std::fs::remove_dir"):
+            return True
+        g = P.fns.get(c)
+        return g is not None and g.impl_trait == N.STOR and c.endswith(("::remove", "::remove_dir_all"))
+    dc = direct_callers(P, is_removal, skip=storage_impl)
+    is_pub = lambda p: P.fn(p) is not None and P.fn(p).vis == "Public" and P.fn(p).kind != "closure"  # noqa: E731
+    tops = tops_of(P, dc.keys(), stop=lambda p: p == N.CLEANUP or is_pub(p))
+    for c in sorted(tops):
+        f = P.fn(c)
+        if f is not None and f.crate != "searchlite_core":
+            continue
+        n += 1
+        ctx.ob(rid, "%s:removal:%s" % (rid, c.split("::", 1)[1]), c == N.CLEANUP,
+               "file removal (Storage::remove*, std::fs::remove_*) is reached only through cleanup_segments" if c == N.CLEANUP else
+               "file removal is reachable from %s without passing through cleanup_segments" % c,
+               "%s:%s" % (f.file, f.line) if f else None)
+    ctx.floor(rid + ".remove", n, 1, "file-removal call chains")
     cl_callers = entry_ancestors(P, N.CLEANUP, skip=is_test_or_bench)
     allowed = {N.W + "::commit", N.INDEX + "::compact"}
     ctx.floor(rid + ".cleanup-callers", len(cl_callers), 2, "callers of cleanup_segments")
@@ -327,14 +339,20 @@ def r01f(ctx, P):
                 ctx.ob(rid, "%s:commit:cleanup-argument" % rid, ok,
                        "commit's error arm deletes only segments written by this call (%s)" % why if ok else
                        "commit's cleanup argument may contain published segments: %s" % why, Site(commit, b).loc())
-    for eff, what in ((N.F_SET_LEN, "StorageFile::set_len"), (N.S_OPEN_APPEND, "Storage::open_append")):
-        cs = [c for c in callers_of(P, eff) if P.fn(c) and P.fn(c).impl_trait not in (N.STOR, N.SFILE) and not is_test_or_bench(P.fn(c))]
-        ctx.floor(rid + "." + what, len(cs), 1, "callers of " + what)
-        for c in cs:
+    def is_set_len(c):
+        g = P.fns.get(c)
+        return c in (N.F_SET_LEN, "std::fs::File::set_len") or (g is not None and g.impl_trait == N.SFILE and c.endswith("::set_len"))
+
+    def is_open_append(c):
+        g = P.fns.get(c)
+        return c == N.S_OPEN_APPEND or (g is not None and g.impl_trait == N.STOR and c.endswith("::open_append"))
+    for pred, what in ((is_set_len, "StorageFile::set_len"), (is_open_append, "Storage::open_append")):
+        dcs = {c: s_ for c, s_ in direct_callers(P, pred, skip=storage_impl).items() if P.fn(c).crate == "searchlite_core"}
+        ctx.floor(rid + "." + what, len(dcs), 1, "callers of " + what)
+        for c, site in sorted(dcs.items()):
             ok = c.startswith("searchlite_core::index::wal::")
             ctx.ob(rid, "%s:%s:%s" % (rid, what, c.split("::", 1)[1]), ok,
-                   "%s used inside index::wal" % what if ok else "%s used outside index::wal in %s" % (what, c),
-                   "%s:%s" % (P.fn(c).file, P.fn(c).line))
+                   "%s used inside index::wal" % what if ok else "%s used outside index::wal in %s" % (what, c), site.loc())
 
 
 def _base_vec_local(fn, sl, operand):
